@@ -119,3 +119,47 @@ func HarnessRelayerAllowList() {
 		verif.Assert(verif.StEqual(w.Ctx, "ibc", snap), "a rejected relay writes nothing")
 	}
 }
+
+// sourceSideAllowList: acknowledgement and timeout messages are processed on the packet's source chain, so the allow
+// list that counts is the one of the local (source) client — whatever is configured under the destination identifier.
+func sourceSideAllowList(timeout bool) {
+	s := corekit.SendSideV2(1, 1)
+	w := s.W
+	allowed := []string{models.SymAccountN("allowed0", 2)}
+	if verif.Bool("two") {
+		allowed = append(allowed, models.Accounts[2])
+	}
+	w.IBC.ClientV2Keeper.SetConfig(w.Ctx, s.Local, clientv2types.Config{AllowedRelayers: allowed})
+	signer := models.SymAccountN("signer", 4)
+	var err error
+	ok := false
+	if timeout {
+		msg := s.TimeoutMsg()
+		msg.Signer = signer
+		var res *v2.MsgTimeoutResponse
+		res, err = w.IBC.ChannelKeeperV2.Timeout(w.Ctx, msg)
+		ok = err == nil && res.Result == v2.SUCCESS
+	} else {
+		msg := s.AckMsg(1)
+		msg.Signer = signer
+		var res *v2.MsgAcknowledgementResponse
+		res, err = w.IBC.ChannelKeeperV2.Acknowledgement(w.Ctx, msg)
+		ok = err == nil && res.Result == v2.SUCCESS
+	}
+	verif.Reach("returned")
+	if ok {
+		verif.Reach("processed")
+		acc := sdk.MustAccAddressFromBech32(signer)
+		on := false
+		for _, a := range allowed {
+			if acc.Equals(sdk.MustAccAddressFromBech32(a)) {
+				on = true
+			}
+		}
+		verif.Assert(on, "an acknowledgement or timeout is relayed only by a signer on the source client's allow list")
+	}
+}
+
+// HarnessAckAllowList / HarnessTimeoutAllowList.
+func HarnessAckAllowList()     { sourceSideAllowList(false) }
+func HarnessTimeoutAllowList() { sourceSideAllowList(true) }
